@@ -71,7 +71,15 @@ func genC11(t *rapid.T) C11Case {
 			}
 		}
 		i := rapid.SampledFrom(idxs).Draw(t, "placeat")
-		per[i] = append(per[i], PlanItem{Occ: genOcc(t, spec, levels[i], key)})
+		oc := genOcc(t, spec, levels[i], key)
+		// Bundling + Pass: an undeclared letter may lead the bundle that supplies the option (`-Qr`); the token is
+		// handed on as a whole and the declared letter behind it still counts
+		if spec.Mode == ModeBundling && levels[i].UnknownMode == UnkPass && !levels[i].RequireOrder && oc.Dash == "-" && oc.Attach != "sd" && len([]rune(oc.Written)) == 1 && oc.Written != "-" && rapid.IntRange(0, 2).Draw(t, "unklead") == 0 {
+			if k2, c2 := resolve(levels[i], "Q"); k2 == "" && len(c2) == 0 {
+				oc.Lead = "Q"
+			}
+		}
+		per[i] = append(per[i], PlanItem{Occ: oc})
 	}
 	for _, vo := range L.VisibleOpts() {
 		o := vo.Spec
